@@ -394,7 +394,6 @@ fn obs_dtrange(r: &DateTimeRange) -> Result<(Option<Bound>, Option<Bound>), Stri
 }
 
 fn main() {
-    vx_core::quiet_error_backtraces();
     let check = Check::from_args("C12", Level::Exploration);
     let days = DayTable::new();
     let years: Vec<u16> = if check.quick() { vec![0, 1, 4, 100, 400, 1900, 1999, 2000, 2023, 2024, 9999] } else { (0..=9999).collect() };
